@@ -100,8 +100,11 @@ def run_shard(spec, ctx):
         elif what == "scipy_minimize":
             settings = {"use_jacobian": False}
         tmp = tempfile.mkdtemp(prefix="vf-c11-")
-        base_job = {"cell": list(cell), "cohort_seed": int(rng.integers(1 << 30)), "what": what, "seed": int(rng.integers(1 << 20)), "settings": settings, "tmp": tmp}
-        case = {"index": i, "cell": list(map(str, cell)), "what": what, "settings": settings}
+        # seed classes: 0 (falsy!), 1, 2**32 - 1 (largest numpy seed), random
+        seed_call = [0, int(rng.integers(2, 1 << 20)), 1, 2 ** 32 - 1][(spec["k"] // 3 + i) % 4] if what != "fit" else [int(rng.integers(2, 1 << 20)), 0][(spec["k"] + i) % 2]
+        ctx.count(f"seed_class_{'zero' if seed_call == 0 else 'other'}")
+        base_job = {"cell": list(cell), "cohort_seed": int(rng.integers(1 << 30)), "what": what, "seed": seed_call, "settings": settings, "tmp": tmp}
+        case = {"index": i, "cell": list(map(str, cell)), "what": what, "settings": settings, "seed": seed_call}
         try:
             # (a) fresh baseline
             base = _run_worker(dict(base_job, variants=[{"prelude": [], "logs": None}]), 0, 900)
